@@ -20,7 +20,7 @@ type Decision struct {
 	B    bool   // direction taken
 	V    uint64 // for value decisions: the candidate value compared against
 	HasV bool
-	F    bool // forced: the other direction was infeasible when first explored
+	F    bool         // forced: the other direction was infeasible when first explored
 	Sub  [][]Decision // summary: the feasible internal trails of a summarised callee
 }
 
@@ -88,23 +88,23 @@ type decCtx struct {
 }
 
 type pathState struct {
-	dc      *decCtx
-	top     *decCtx
-	pc      []*smt.Term
-	pcSet   map[int]bool
-	inputs  []Input
-	inputIx map[string]int
-	known   []knownPred
-	reached map[string]bool
-	steps   int
-	summaries, summaryPaths int
-	lazy    []*smt.Term
+	dc                          *decCtx
+	top                         *decCtx
+	pc                          []*smt.Term
+	pcSet                       map[int]bool
+	inputs                      []Input
+	inputIx                     map[string]int
+	known                       []knownPred
+	reached                     map[string]bool
+	steps                       int
+	summaries, summaryPaths     int
+	lazy                        []*smt.Term
 	keys, keygens, signs, rands int
-	asn1Memo    map[string]asn1MemoEntry
-	asn1Inverse int
-	hashApps []hashApp
-	fresh   int
-	notes   []string
+	asn1Memo                    map[string]asn1MemoEntry
+	asn1Inverse                 int
+	hashApps                    []hashApp
+	fresh                       int
+	notes                       []string
 }
 
 type hashApp struct {
